@@ -1,7 +1,7 @@
 (* Property C10 -- theorems about code TRANSLATED from ruleguard/typematch/typematch.go on this run (proved in Inst_C10.v over
    Gen_C10.v, go2coq c10tables). Theorems only. *)
 From Coq Require Import List ZArith Bool String.
-From RG.Types Require Import GType TypePat GoStrings.
+From RG.Types Require Import GType TypePat GoStrings MatchSkel.
 From RGW Require Import Gen_C10 Inst_C10.
 Import ListNotations.
 Local Open Scope string_scope.
@@ -46,6 +46,84 @@ Proof.
           (conj (proj1 placeholder_prefixes_do_not_overlap) (proj1 (proj2 placeholder_prefixes_do_not_overlap)))).
 Qed.
 Print Assumptions C10_parse_placeholders.
+
+(* ---- the control skeleton: every constructor case of the source IS the model's case. The clauses of Pattern.matchIdentical are
+   translated (go2coq c10skel) into MatchSkel.clause terms -- calls of the matcher, the continuations handed to them and the &&
+   structure explicit -- and clause_sem gives them their meaning through the model's matcher for the components. In particular a
+   constructor with several components (map: key, value; func: parameters, results) hands the FIRST component the match of the later
+   ones followed by `k` as its continuation, so a `$*_` run deep inside the first component is revisited when a later one rejects
+   the binding -- which is what C10_match_complete is about. *)
+Theorem C10_map_case_of_the_source : forall ident a b t st k,
+  match_k ident (PMap a b) t st k =
+  match unalias_top t with
+  | T HMap [kt; vt] =>
+    clause_sem ident (Env (tbl [("sub.subs[0]", a); ("sub.subs[1]", b)]) no (tbl [("typ.Key()", kt); ("typ.Elem()", vt)]) no no)
+               (the_clause "opMap") st k
+  | _ => false
+  end.
+Proof. exact map_case. Qed.
+Print Assumptions C10_map_case_of_the_source.
+
+Theorem C10_func_case_of_the_source : forall ident ps rs t st k,
+  match_k ident (PFunc ps rs) t st k =
+  match unalias_top t with
+  | T (HSig v) [T HTuple pts; T HTuple rts] =>
+    clause_sem ident
+      (Env no (tbl [("params", ps); ("results", rs)]) no
+           (tbl [("&tupleFielder{x: typ.Params()}", pts); ("&tupleFielder{x: typ.Results()}", rts)])
+           (tbl [("typ.Variadic() && (numParams == 0 || params[numParams-1].op != opVarSeq)", v && negb (last_is_seq ps))]))
+      (the_clause "opFuncNoSeq,opFunc") st k
+  | _ => false
+  end.
+Proof. exact func_case. Qed.
+Print Assumptions C10_func_case_of_the_source.
+
+Theorem C10_element_cases_of_the_source : forall ident,
+  (forall q t st k, match_k ident (PPointer q) t st k =
+     match unalias_top t with
+     | T HPointer [e] => clause_sem ident (Env (tbl [("sub.subs[0]", q)]) no (tbl [("typ.Elem()", e)]) no no) (the_clause "opPointer") st k
+     | _ => false end) /\
+  (forall q t st k, match_k ident (PSlice q) t st k =
+     match unalias_top t with
+     | T HSlice [e] => clause_sem ident (Env (tbl [("sub.subs[0]", q)]) no (tbl [("typ.Elem()", e)]) no no) (the_clause "opSlice") st k
+     | _ => false end) /\
+  (forall d q t st k, match_k ident (PChan d q) t st k =
+     match unalias_top t with
+     | T (HChan d') [e] =>
+       clause_sem ident (Env (tbl [("sub.subs[0]", q)]) no (tbl [("typ.Elem()", e)]) no (tbl [("dir == typ.Dir()", N.eqb d d')])) (the_clause "opChan") st k
+     | _ => false end) /\
+  (forall fs t st k, match_k ident (PStruct fs) t st k =
+     match unalias_top t with
+     | T (HStruct _) fts => clause_sem ident (Env no (tbl [("sub.subs", fs)]) no (tbl [("typ", fts)]) no) (the_clause "opStructNoSeq,opStruct") st k
+     | _ => false end).
+Proof. intro ident. exact (conj (pointer_case ident) (conj (slice_case ident) (conj (chan_case ident) (struct_case ident)))). Qed.
+Print Assumptions C10_element_cases_of_the_source.
+
+(* every call of the matcher anywhere in typematch.go hands on a continuation that ends in the caller's own `k`; the one finished
+   continuation (matchDone) is what the public entry starts with, and nobody else mentions it *)
+Theorem C10_every_case_threads_the_continuation :
+  forallb (fun c => threads_k (snd c) || String.eqb (fst (fst c)) "Pattern.MatchIdentical") gen_cont_args = true /\
+  filter (fun c => String.eqb (fst (fst c)) "Pattern.MatchIdentical") gen_cont_args = [("Pattern.MatchIdentical", "matchIdentical", KDone)] /\
+  gen_matchdone_uses = ["Pattern.MatchIdentical"] /\
+  forallb (fun lc => threads_m (cl_ret (snd lc))) gen_clauses = true.
+Proof.
+  exact (conj (proj1 every_continuation_ends_in_k) (conj (proj1 (proj2 every_continuation_ends_in_k))
+          (conj (proj1 (proj2 (proj2 every_continuation_ends_in_k))) (proj1 (proj2 (proj2 (proj2 every_continuation_ends_in_k))))))).
+Qed.
+Print Assumptions C10_every_case_threads_the_continuation.
+
+(* matchIdenticalFielder as it is written -- an index into the fields and a loop over the lengths of a `$*_` run -- is the model's
+   list matcher (every pattern list, field list, state, continuation); the source's statements are the transcribed ones *)
+Theorem C10_fielder_of_the_source_is_the_model :
+  gen_fielder_stmts =
+    ["if len(subs) == 0 { return from == f.NumFields() && k() }";
+     "pat := subs[0]";
+     "if pat.op == opVarSeq { for next := from; next <= f.NumFields(); next++ { if p.matchIdenticalFielder(state, subs[1:], f, next, k) { return true } } return false }";
+     "if from == f.NumFields() { return false }";
+     "return p.matchIdentical(state, pat, f.Field(from).Type(), func() bool { return p.matchIdenticalFielder(state, subs[1:], f, from+1, k) })"] /\
+  forall ident subs fs st k, fielder_go (match_k ident) subs fs 0 st k = list_k (match_k ident) subs fs st k.
+Proof. exact (conj fielder_is_as_transcribed fielder_go_is_the_model). Qed.
+Print Assumptions C10_fielder_of_the_source_is_the_model.
 
 (* what the clause does on the near misses of "a vendored copy is the package itself" *)
 Example c10tr_vendored_near_misses :
